@@ -131,6 +131,8 @@ def exec_hist(case, work):
         rr = np.random.default_rng(s)
         try:
             rec, status, tok, mut = exec_op(case, rec, kind, u, s, rr, n_cur, dt, work, problems)
+            if s % 3 == 1:
+                observers(rec)
         except Exception as e:   # reported as a disagreement, not a crash of the check
             status, tok, mut = "exc:" + type(e).__name__, None, False
         if tok is None:
@@ -141,6 +143,25 @@ def exec_hist(case, work):
         per_op.append([status, int(rec.ns.n_samples), hexf(rec.degrees_from_north)])
     line = "rec.hist " + " ".join(toks) + f" {len(op_toks)} " + " ".join(op_toks)
     return line, per_op, rec, problems, mutated
+
+
+def observers(rec):
+    """public calls that only LOOK at a recording (time axis, text, comparison, the waveform plot of a list in which it is not the first entry): they are no
+    operations of the history -- whatever follows must behave as if they had not happened"""
+    import matplotlib
+    matplotlib.use("Agg")
+    import matplotlib.pyplot as plt
+    from hvsrpy.seismic_recording_3c import SeismicRecording3C
+    import hvsrpy.postprocessing as pp
+    rec.ns.time(); rec.vt.time()
+    str(rec); repr(rec.ns)
+    rec.is_similar(rec)
+    other = SeismicRecording3C.from_seismic_recording_3c(rec)
+    try:
+        with quiet():
+            pp.plot_seismic_recordings_3c([other, rec])
+    finally:
+        plt.close("all")
 
 
 def exec_op(case, rec, kind, u, s, rr, n_cur, dt, work, problems):
